@@ -21,7 +21,7 @@ import re
 
 import sympy
 
-from mmsa import au, cfg as cfgmod, dataflow, sym
+from mmsa import au, canon, cfg as cfgmod, dataflow, sym
 from mmsa.core import Undecided, norm, walk_no_nested
 from mmsa.types import FuncCtx
 
@@ -142,24 +142,42 @@ def run(repo, rep, tier):
             'the residual scale is built from std%s, not from std(self.y, ddof=2)' % (call_args.get('std'),), fe.loc())
   # 3. tbrfit: scale, cihw, estimate
   ctx3, r3 = value_of(ft)
-  rv = ctx3.rd.expand(r3, r3.ast.value, depth=20)[0]
-  if not (isinstance(rv, ast.Call) and norm(rv.func) == 'TBRFit' and len(rv.args) == 4):
+  rv = canon.of(repo).expr(ctx3.rd.expand(r3, r3.ast.value, depth=20)[0])
+  if not (isinstance(rv, ast.Call) and norm(rv.func) == 'TBRFit' and len(rv.args) == 4 and not rv.keywords):
     raise Undecided('tbrfit does not return TBRFit(estimate, cihw, sigma, scale)')
+  fit_fields = canon.of(repo).sigs.get('LinregResult') or []
+
+  def fit_field(e):
+    """Field of the pre-test fit denoted by e: `self.pretestfit.sigma`, or a local unpacked from the fit."""
+    m = re.fullmatch(r'(self\.pretestfit|self\._pretestfit|pretestfit)\.(\w+)', norm(e))
+    if m and m.group(2) in fit_fields:
+      return m.group(2)
+    if isinstance(e, ast.Name):
+      d = ctx3.rd.single_def(r3, e.id)
+      if d is not None and d.how == 'unpack' and d.index is not None and d.value is not None \
+          and norm(ctx3.rd.expand(d.node, d.value)[0]) in ('self.pretestfit', 'self._pretestfit') and d.index < len(fit_fields):
+        return fit_fields[d.index]
+    return None
   sigma = sym.symbol('sigma', True)
   dv = sym.symbol('dv', True)
   nn = n
 
   def leaf_t(e):
     t = norm(e)
-    if t == 'sigma':
+    ff = fit_field(e)
+    if ff == 'sigma':
       return sigma
+    if ff == 'b':
+      return sym.symbol('b')
+    if ff is not None:
+      return sym.symbol('fit_' + ff)
     if t in ('self._par.n_test', 'par.n_test'):
       return n_test
     if t in ('self._par.sig_level',):
       return sig
     if t in ('len(self._x)', 'len(self._y)', 'len(self.x)', 'len(self.y)'):
       return nn
-    for nm, s_ in (('xt', 'xt'), ('yt', 'yt'), ('self._x_mean', 'xm'), ('self._y_mean', 'ym'), ('b', 'b')):
+    for nm, s_ in (('xt', 'xt'), ('yt', 'yt'), ('self._x_mean', 'xm'), ('self._y_mean', 'ym')):
       if t == nm:
         return sym.symbol(s_)
     return None
